@@ -149,6 +149,13 @@ def roundtrip(level, text, cnt, viol, nt, rng, do_generate=False, depth=0):
             except Exception as exc:
                 res.append(("exc", type(exc).__name__, str(exc)[:80]))
         cnt["generation_pairs"] += 1
+        # the canonical string is a property of the parsed object: generating from it must not change what it prints
+        try:
+            c_after = str(o)
+        except Exception as exc:
+            c_after = f"<str raises {type(exc).__name__}>"
+        if c_after != c:
+            bad("c01.canonical-string-changes-after-generation", f"{level}({text!r}) printed {c!r}; after one generate() it prints {c_after!r}")
         if res[0][0] == "ok" and res[1][0] == "ok":
             cnt["generation_pairs_ok"] += 1
             if res[0] != res[1]:
